@@ -184,11 +184,6 @@ Definition obs_matches (o : option prim) (r : res prim) : bool :=
   | _, _ => res_eqb prim_eqb (observed_res o) r
   end.
 
-Definition prim_ety (p : prim) : ety :=
-  match p with
-  | PInteger _ => EInteger | PFloat _ => EFloat | PBytes _ => EBytes | PRegex _ => ERegex | PBoolean _ => EBoolean
-  end.
-
 (* the compiler accepts the use as an expression *)
 Definition model_compiles (tree : mtype) (path : list top) : option ety :=
   match typechecks tree path with
